@@ -4,6 +4,7 @@
 From Coq Require Import ZArith NArith List String.
 From LV Require Import Base.Conc Base.Events Base.Lin Spec.Specs Model.Feldman Proofs.FeldmanStepInv Proofs.FeldmanStepSafe Proofs.FeldmanStepThm.
 From LV Require Import Model.SplitList Proofs.SplitListInv Proofs.PartitionLin Proofs.FeldmanLinInv Proofs.FeldmanLinSafe.
+From LV Require Proofs.FeldmanStepRel.
 From LV Require Model.MichaelList Model.Product Model.MichaelSet Proofs.MichaelListProofs Proofs.MichaelSetProofs Proofs.MichaelSetShape Proofs.MichaelSetHist Proofs.MichaelSetLin.
 Import ListNotations.
 
@@ -53,12 +54,12 @@ Proof.
 Qed.
 Print Assumptions C14_feldman_expand_preserves_partial.
 
-(** full statement (NOT proved at this granularity): over the steps of every execution, a slot holding an array node never
-    changes, a converting slot changes only into an array node, and any step that changes a flag or writes into an unlinked
-    array node preserves presence.  What is missing: the proof rule Conc.safe establishes a state invariant, not a relation
-    between consecutive configurations; the per-access lemmas above + [safe_expand] are the content, the step-indexed
-    packaging (a ghost "previous state") is not done. *)
-Definition feldman_expand_preserves_statement : Prop :=
+(** full statement, over the steps of every execution (every schedule): a slot holding an array node never changes, a
+    converting slot changes only into an array node, and any step that changes a flag preserves the set of hashes present
+    - the slot life cycle data -> converting -> array node happens at most once per slot.  Proved with the relational
+    variant of the proof rule (Proofs/ConcRel.v: every access of every program additionally satisfies a relation between
+    the shared state before and after; Proofs/FeldmanStepRel.v: the programs of the Feldman model in that rule). *)
+Theorem C14_feldman_expand_preserves :
   forall (hbits abits W : nat) (hs : list N), 0 < hbits -> 0 < abits ->
   forall fuel ths c t c', Conc.reach (Feldman.init_cfg hbits abits W hs fuel ths) c -> Conc.step_cfg c t = Some c' ->
     (forall a i, sbits (arr (Conc.shared c) a i) = 2 -> arr (Conc.shared c') a i = arr (Conc.shared c) a i) /\
@@ -66,6 +67,11 @@ Definition feldman_expand_preserves_statement : Prop :=
        arr (Conc.shared c') a i = arr (Conc.shared c) a i \/ sbits (arr (Conc.shared c') a i) = 2) /\
     ((exists a i, sbits (arr (Conc.shared c) a i) <> sbits (arr (Conc.shared c') a i)) ->
        forall h, present hs (Conc.shared c') h <-> present hs (Conc.shared c) h).
+Proof.
+  intros hbits abits W hs Hh Ha fuel ths c t c' Hr Hs.
+  exact (@FeldmanStepRel.feldman_step_rel hbits abits W hs Hh Ha fuel ths c t c' Hr Hs).
+Qed.
+Print Assumptions C14_feldman_expand_preserves.
 
 (** non-vacuity: a concrete 2-thread run (head 4 bits, array 2 bits, hashes 5, 21, 37 share the head slot) in which an
     array node is created and two items end up in different slots of it *)
